@@ -601,4 +601,269 @@ theorem args_sheet_unknown (sheets : List (Str × DataSheet V)) (ps qs : List (A
   rw [mapArgsLoop_append, hp]
   simp [mapArgsLoop, bindArg, hnew, hv, ht, hs]
 
+
+/-! ### no leak -/
+
+theorem mapE_cons_ok {γ δ : Type} (f : γ → Except Err δ) (a : γ) (as : List γ) (outs : List δ) :
+    mapE f (a :: as) = .ok outs ↔ ∃ b bs, f a = .ok b ∧ mapE f as = .ok bs ∧ outs = b :: bs := by
+  simp only [mapE]
+  cases h1 : f a with
+  | error e => simp
+  | ok b =>
+    cases h2 : mapE f as with
+    | error e => simp
+    | ok bs => simp [eq_comm]
+
+theorem mapE_mem {γ δ : Type} (f : γ → Except Err δ) :
+    ∀ (l : List γ) (outs : List δ), mapE f l = .ok outs →
+      (∀ a ∈ l, ∃ b ∈ outs, f a = .ok b) ∧ (∀ b ∈ outs, ∃ a ∈ l, f a = .ok b) := by
+  intro l
+  induction l with
+  | nil => intro outs h; simp [mapE] at h; subst h; simp
+  | cons a t ih =>
+    intro outs h
+    obtain ⟨b, bs, h1, h2, rfl⟩ := (mapE_cons_ok f a t outs).1 h
+    obtain ⟨ih1, ih2⟩ := ih bs h2
+    constructor
+    · intro x hx
+      rcases List.mem_cons.1 hx with rfl | hx
+      · exact ⟨b, List.mem_cons_self, h1⟩
+      · obtain ⟨y, hy, hf⟩ := ih1 x hx; exact ⟨y, List.mem_cons_of_mem _ hy, hf⟩
+    · intro y hy
+      rcases List.mem_cons.1 hy with rfl | hy
+      · exact ⟨a, List.mem_cons_self, h1⟩
+      · obtain ⟨x, hx, hf⟩ := ih2 y hy; exact ⟨x, List.mem_cons_of_mem _ hx, hf⟩
+
+/-- **no leak (histories).**  Whatever flows were produced before (`fl`) and whatever other data
+rows are instantiated before or after (`ids`), the flow a bulk row leaves under the name
+`base - i` is `inst env r i` — an expression that mentions the index row, the registries and `i`
+only: neither the other data rows, nor their arguments, nor anything computed for them. -/
+theorem no_leak (env : Env V Out) (r : FlowRow) (hds : r.dataSheet ≠ [])
+    (ids : List Str) (hid : ∀ i ∈ ids, i ≠ []) (fl fl' : Flows Out)
+    (h : bulkLoop env r ids fl = .ok fl') (i : Str) (hi : i ∈ ids) :
+    ∃ o, inst env r i = .ok (flowName (baseName r.sheetName r.newName) i, o) ∧
+      dictGet fl' (flowName (baseName r.sheetName r.newName) i) = some o := by
+  rw [bulkLoop_eq] at h
+  cases hm : mapE (inst env r) ids with
+  | error e => simp [hm] at h
+  | ok outs =>
+    simp [hm] at h; subst h
+    obtain ⟨h1, h2⟩ := mapE_mem (inst env r) ids outs hm
+    obtain ⟨f, hf, hfi⟩ := h1 i hi
+    have hn := inst_name env r hds (hid i hi) hfi
+    refine ⟨f.2, ?_, ?_⟩
+    · rw [hfi, ← hn]
+    · apply dictGet_foldl_addFlow outs _ f.2
+      · intro p hp hpk
+        obtain ⟨j, hj, hfj⟩ := h2 p hp
+        have hnj := inst_name env r hds (hid j hj) hfj
+        have : j = i := flowName_inj _ (hnj.symm.trans hpk)
+        subst this
+        rw [hfi] at hfj; cases hfj; rfl
+      · exact Or.inl ⟨f, hf, hn⟩
+
+theorem mapArgsLoop_congr (sheets sheets' : List (Str × DataSheet V)) (ps : List (ArgDef × Str))
+    (ctx : Ctx V)
+    (h : ∀ p ∈ ps, p.1.type = sheetTy →
+      dictGet sheets (argValue p.1 p.2) = dictGet sheets' (argValue p.1 p.2)) :
+    mapArgsLoop sheets ps ctx = mapArgsLoop sheets' ps ctx := by
+  induction ps generalizing ctx with
+  | nil => rfl
+  | cons p t ih =>
+    obtain ⟨d, a⟩ := p
+    have hb : bindArg sheets ctx d a = bindArg sheets' ctx d a := by
+      unfold bindArg
+      by_cases ht : d.type = sheetTy
+      · have := h (d, a) List.mem_cons_self ht
+        simp only at this
+        simp only [ht, if_true, this]
+      · simp only [ht, if_false]
+    simp only [mapArgsLoop, hb]
+    cases bindArg sheets' ctx d a with
+    | error e => rfl
+    | ok c => exact ih c (fun p hp => h p (List.mem_cons_of_mem _ hp))
+
+/-- **no leak (data).**  The instance for data row `i` depends on the registered data sheets
+only through (a) row `i` of the row's data sheet and (b) the sheets named by its `sheet`
+arguments: two registries that agree on those give the same instance — in particular the other
+rows of the data sheet are irrelevant. -/
+theorem no_leak_frame (env env' : Env V Out) (r : FlowRow) (i : Str)
+    (ht : env'.templates = env.templates) (hc : env'.compile = env.compile)
+    (hrow : nameAndRow env' (baseName r.sheetName r.newName) r.dataSheet i =
+      nameAndRow env (baseName r.sheetName r.newName) r.dataSheet i)
+    (hsh : ∀ defs, dictGet env.templates r.sheetName = some defs →
+      ∀ p ∈ zipPad defs r.args, p.1.type = sheetTy →
+        dictGet env.sheets (argValue p.1 p.2) = dictGet env'.sheets (argValue p.1 p.2)) :
+    inst env' r i = inst env r i := by
+  unfold inst parseFlow
+  rw [hrow, ht, hc]
+  cases nameAndRow env (baseName r.sheetName r.newName) r.dataSheet i with
+  | error e => rfl
+  | ok nc =>
+    obtain ⟨name, ctx0⟩ := nc
+    simp only []
+    cases hd : dictGet env.templates r.sheetName with
+    | none => rfl
+    | some defs =>
+      simp only []
+      rw [mapArgs_eq, mapArgs_eq, mapArgsLoop_congr env.sheets env'.sheets _ ctx0 (hsh defs hd)]
+
+/-! ### order of generation -/
+
+theorem mapE_perm {γ δ : Type} (f : γ → Except Err δ) {l l' : List γ} (hp : l.Perm l') :
+    ∀ (outs : List δ), mapE f l = .ok outs → ∃ outs', mapE f l' = .ok outs' ∧ outs.Perm outs' := by
+  induction hp with
+  | nil => intro outs h; exact ⟨outs, h, List.Perm.refl _⟩
+  | cons x _ ih =>
+    intro outs h
+    obtain ⟨b, bs, h1, h2, rfl⟩ := (mapE_cons_ok f x _ outs).1 h
+    obtain ⟨bs', h3, h4⟩ := ih bs h2
+    exact ⟨b :: bs', (mapE_cons_ok f x _ _).2 ⟨b, bs', h1, h3, rfl⟩, List.Perm.cons b h4⟩
+  | swap x y l =>
+    intro outs h
+    obtain ⟨b, bs, h1, h2, rfl⟩ := (mapE_cons_ok f y _ outs).1 h
+    obtain ⟨c, cs, h3, h4, rfl⟩ := (mapE_cons_ok f x _ bs).1 h2
+    refine ⟨c :: b :: cs, ?_, List.Perm.swap c b cs⟩
+    exact (mapE_cons_ok f x _ _).2 ⟨c, b :: cs, h3, (mapE_cons_ok f y _ _).2 ⟨b, cs, h1, h4, rfl⟩, rfl⟩
+  | trans _ _ ih1 ih2 =>
+    intro outs h
+    obtain ⟨o1, h1, p1⟩ := ih1 outs h
+    obtain ⟨o2, h2, p2⟩ := ih2 o1 h1
+    exact ⟨o2, h2, p1.trans p2⟩
+
+theorem dictGet_some_iff_mem (l : List (Str × β)) (hn : (keys l).Nodup) (k : Str) (v : β) :
+    dictGet l k = some v ↔ (k, v) ∈ l := by
+  induction l with
+  | nil => simp [dictGet]
+  | cons p t ih =>
+    obtain ⟨k₀, v₀⟩ := p
+    simp only [keys, List.map_cons, List.nodup_cons] at hn
+    by_cases h0 : k₀ = k
+    · subst h0
+      simp only [dictGet, if_true, Option.some.injEq, List.mem_cons, Prod.mk.injEq, true_and]
+      constructor
+      · intro h; exact Or.inl h.symm
+      · rintro (h | h)
+        · exact h.symm
+        · exact absurd (List.mem_map.2 ⟨(k₀, v), h, rfl⟩) hn.1
+    · have h0' : ¬ k = k₀ := fun e => h0 e.symm
+      simp only [dictGet, h0, if_false, List.mem_cons, Prod.mk.injEq, h0', false_and, false_or]
+      exact ih (by simpa [keys] using hn.2)
+
+theorem dictGet_perm {l l' : List (Str × β)} (hp : l.Perm l') (hn : (keys l).Nodup) (k : Str) :
+    dictGet l' k = dictGet l k := by
+  have hn' : (keys l').Nodup := (List.Perm.nodup_iff (hp.map Prod.fst)).1 hn
+  cases h : dictGet l k with
+  | none =>
+    rw [dictGet_none_iff] at h ⊢
+    intro hm; exact h ((hp.map Prod.fst).mem_iff.2 hm)
+  | some v =>
+    rw [dictGet_some_iff_mem l hn] at h
+    rw [dictGet_some_iff_mem l' hn']
+    exact hp.mem_iff.1 h
+
+/-- **order of generation.**  If no flow name is defined twice, generating the instances in any
+other order of the index rows gives the same flow under each name (and the same set of names);
+in particular an index of single rows may be permuted freely. -/
+theorem bulk_order_independent (env : Env V Out) (rs rs' : List FlowRow) (hp : rs.Perm rs')
+    (outs : List (Str × Out)) (hi : instances env rs = .ok outs) (hn : (keys outs).Nodup) :
+    parseAllFlows env rs = .ok outs ∧
+    ∃ fl', parseAllFlows env rs' = .ok fl' ∧ outs.Perm fl' ∧ ∀ k, dictGet fl' k = dictGet outs k := by
+  unfold parseAllFlows
+  rw [runRows_eq, runRows_eq, hi]
+  unfold instances at hi ⊢
+  cases hm : mapE (expandRow env) rs with
+  | error e => simp [hm] at hi
+  | ok outss =>
+    simp [hm] at hi; subst hi
+    obtain ⟨outss', hm', hperm⟩ := mapE_perm (expandRow env) hp outss hm
+    have hpf : outss.flatten.Perm outss'.flatten := hperm.flatten
+    have hn' : (keys outss'.flatten).Nodup := (List.Perm.nodup_iff (hpf.map Prod.fst)).1 hn
+    simp only [hm']
+    rw [foldl_addFlow_fresh _ [] (by simpa [keys] using hn),
+        foldl_addFlow_fresh _ [] (by simpa [keys] using hn')]
+    refine ⟨by simp, outss'.flatten, by simp, hpf, fun k => dictGet_perm hpf hn k⟩
+
+/-! ### non-vacuity and negative witnesses (kernel-checked on concrete data) -/
+
+section Witness
+
+/-- opaque data values are numbers here; the "compiler" returns the names bound in the context
+and the text values, which is enough to tell instances apart -/
+def showCtx (c : Ctx Nat) : List (Str × Str) :=
+  c.map (fun p => (p.1, match p.2 with
+    | .data n => (toString n).toList
+    | .text s => s
+    | .sheet rows => (String.intercalate "," (rows.map (fun q => String.ofList q.1))).toList))
+
+abbrev WOut := Str × List (Str × Str)
+
+def wEnv (ids : List Str) : Env Nat WOut where
+  sheets := [("data".toList, ids.zipIdx.map (fun p => (p.1, [("word".toList, p.2)]))),
+             ("other".toList, [("o1".toList, [("label".toList, 7)])])]
+  templates := [("tmpl".toList, [{ name := "extra".toList, default := "dflt".toList },
+                                { name := "sh".toList, type := sheetTy, default := "other".toList }])]
+  compile := fun t n c => (t, showCtx c)
+
+def wBulk : FlowRow := { sheetName := "tmpl".toList, dataSheet := "data".toList, args := ["X".toList] }
+
+def wIds : List Str := ["r1".toList, "r2".toList, "r3".toList]
+
+instance : DecidableEq (Except Err (Flows WOut)) := fun a b =>
+  match a, b with
+  | .ok x, .ok y => if h : x = y then isTrue (by rw [h]) else isFalse (by intro e; cases e; exact h rfl)
+  | .error x, .error y => if h : x = y then isTrue (by rw [h]) else isFalse (by intro e; cases e; exact h rfl)
+  | .ok _, .error _ => isFalse (by intro e; cases e)
+  | .error _, .ok _ => isFalse (by intro e; cases e)
+
+/-- the hypotheses of `bulk_eq_singles` / `bulk_names` are satisfiable with a successful,
+three-instance run whose contexts hold the data field, the positional argument and the default
+`sheet` argument -/
+example : parseAllFlows (wEnv wIds) [wBulk] = .ok [
+    ("tmpl - r1".toList, ("tmpl".toList, [("word".toList, "0".toList), ("extra".toList, "X".toList), ("sh".toList, "o1".toList)])),
+    ("tmpl - r2".toList, ("tmpl".toList, [("word".toList, "1".toList), ("extra".toList, "X".toList), ("sh".toList, "o1".toList)])),
+    ("tmpl - r3".toList, ("tmpl".toList, [("word".toList, "2".toList), ("extra".toList, "X".toList), ("sh".toList, "o1".toList)]))] := by
+  decide
+
+example : parseAllFlows (wEnv wIds) [wBulk] = parseAllFlows (wEnv wIds) (singles wBulk wIds) := by decide
+
+/-- `bulk_names` needs "no blank row ID": a data row with a blank ID is instantiated by the bulk
+row as a flow called `tmpl` (not `tmpl - `) with an EMPTY context — the code's
+`if data_sheet and data_row_id` is false for it, so the data row is never looked up.
+(`bulk_eq_singles` keeps the same hypothesis because "the single row naming a blank ID" is not a
+single row at all: it is the bulk row again.) -/
+theorem needs_nonblank_ids :
+    parseAllFlows (wEnv ["r1".toList, []]) [wBulk] = .ok [
+      ("tmpl - r1".toList, ("tmpl".toList, [("word".toList, "0".toList), ("extra".toList, "X".toList), ("sh".toList, "o1".toList)])),
+      ("tmpl".toList, ("tmpl".toList, [("extra".toList, "X".toList), ("sh".toList, "o1".toList)]))] ∧
+    ¬ (∀ fl, parseAllFlows (wEnv ["r1".toList, []]) [wBulk] = .ok fl →
+        keys fl = ["r1".toList, []].map (flowName "tmpl".toList)) := by
+  refine ⟨by decide, ?_⟩
+  intro h
+  have := h _ (by decide : parseAllFlows (wEnv ["r1".toList, []]) [wBulk] = .ok [
+      ("tmpl - r1".toList, ("tmpl".toList, [("word".toList, "0".toList), ("extra".toList, "X".toList), ("sh".toList, "o1".toList)])),
+      ("tmpl".toList, ("tmpl".toList, [("extra".toList, "X".toList), ("sh".toList, "o1".toList)]))])
+  revert this
+  decide
+
+/-- `bulk_order_independent` needs "no name defined twice": two single rows for the same data
+row with different arguments — the later one wins, so the order matters. -/
+theorem needs_distinct_names :
+    let a : FlowRow := { wBulk with dataRowId := "r1".toList, args := ["A".toList] }
+    let b : FlowRow := { wBulk with dataRowId := "r1".toList, args := ["B".toList] }
+    parseAllFlows (wEnv wIds) [a, b] ≠ parseAllFlows (wEnv wIds) [b, a] := by
+  decide
+
+/-- the error clauses of `args_spec` fire on concrete inputs: a declared argument named like a
+data column, a required argument left blank, an unregistered sheet; extras are ignored -/
+example : mapArgs (V := Nat) [] [{ name := "word".toList }] ["x".toList] [("word".toList, .data 1)]
+    = .error (.argDoublyDefined "word".toList) := by rfl
+example : mapArgs (V := Nat) [] [{ name := "a".toList }] [[], "x".toList] [] = .error (.argMissing "a".toList) := by rfl
+example : mapArgs (V := Nat) [] [{ name := "s".toList, type := sheetTy }] ["nope".toList] []
+    = .error (.sheetNotFound "nope".toList) := by rfl
+example : tooManyWarn [{ name := "a".toList }] ["x".toList, [], []] = false ∧
+    tooManyWarn [{ name := "a".toList }] ["x".toList, [], "y".toList] = true := by decide
+
+end Witness
+
 end Rpft.Props.C12
